@@ -211,6 +211,16 @@ impl Items {
         self.n += 1;
         format!("{p}{}", self.n)
     }
+    fn shadow_konst(&mut self, name: &str, ty: &str, v: &Val) -> Option<String> {
+        let item = format!("pub const {name}: {ty} = {};", value_expr(v, ty));
+        if self.items.iter().any(|i| i.starts_with(&format!("pub const {name}:")) && *i != item) {
+            return None;
+        }
+        if !self.items.contains(&item) {
+            self.items.push(item);
+        }
+        Some(name.to_string())
+    }
     fn konst(&mut self, ty: &str, v: &Val) -> String {
         let k = self.fresh("K");
         self.items.push(format!("pub const {k}: {ty} = {};", value_expr(v, ty)));
@@ -386,6 +396,8 @@ pub fn bound_src(b: &Bound, ty: &str, it: &mut Items) -> Option<String> {
             let one = if fl { "1.0" } else { "1" };
             Some(format!("-{k} + {one}"))
         }
+        Form::ShadowMax => it.shadow_konst("MAX", ty, v),
+        Form::ShadowMin => it.shadow_konst("MIN", ty, v),
         Form::NotLit => {
             let n = bitnot(v, ty)?;
             Some(format!("!{}", num_lit(&n)?))
